@@ -1,8 +1,28 @@
 import P2sh.Model.Proto
 import P2sh.Spec.Rfc
 import P2sh.Props.C16
+import P2sh.Props.C16More
 import P2sh.Props.C17
 import P2sh.Props.C18
+import P2sh.Props.C18More
+/-!
+# C17, continued — the written bytes, and addresses assigned from text
+
+* `set_bytes_local` — stated on bytes: after an accepted assignment to a numeric field of an Ethernet, VLAN, IPv4, IPv6,
+  TCP or UDP header whose fields are within their widths (`HdrWf`: what `from_bytes` produces, `parse_wf`), the
+  serialised header is the old one with the bits `Rfc.layout` gives the field replaced by the value the getter now
+  returns (`Rfc.setBits`, the function the reference state `Rfc.SState.patch` uses): no bit outside the range changes.
+  `pcap_set_bytes_local` is the little-endian record header, `vlan_dei_bytes_local` the one flag.
+  Tools: `setBits_local` / `setBits_splice` (a change confined to the covering bytes), `setByte_outside`,
+  `setByte_inside`, `setByte_part`.
+* `eth_assign_addr`, `ipv4_assign_addr`, `ipv6_assign_addr` — an address property assigned from any text the model's
+  `from_str` accepts: accepted, still well-formed, unchanged by serialise + re-parse, reads back as the text of the
+  parsed address, other properties as before.  `*_assign_text_roundtrip`: assigning the text of address `a` and
+  re-parsing reads the text of `a` (C18 round trips).  `set_wf`: accepted assignments keep `HdrWf`; `setBits_frame`: the
+  same change seen in the whole frame, where the reference patches the bits at `8·offset + o`.  `*_assign_reference`: for a text the reference parser calls
+  standard the value read back is the reference's rendering of the reference's value (C18 `*_reference_standard`,
+  C16 `*_text_is_reference`).
+-/
 namespace P2sh.Props.C17
 open P2sh P2sh.Proto P2sh.Spec
 open P2sh.Props.C16 (hdrLayer)
@@ -452,5 +472,391 @@ example :
 example (h : TcpHdr) (hwf : TcpWf h) (h' : TcpHdr) (hs : h.set .flags (.int 0x10) = some h') :
     ∃ n, h'.get .flags = some (.num n) ∧ n < 2 ^ 8 ∧ h'.toBytes = Rfc.setBits h.toBytes 104 8 n :=
   set_bytes_local (.tcp h) (.tcp h') hwf .flags 104 8 (.int 0x10) (by simp [hdrLayer]) rfl rfl (by simp [Hdr.set, hs])
+
+/-! ## assigning an address from text -/
+
+theorem parseUnsigned_bound (radix max : Nat) (g : List Char) (v : Nat) (h : parseUnsigned radix max g = some v) : v ≤ max := by
+  have hc : ∀ ds, checkDigits radix max ds = some v → v ≤ max := by
+    intro ds hd
+    simp only [checkDigits] at hd
+    split at hd
+    · split at hd
+      · cases hd; assumption
+      · cases hd
+    · cases hd
+  unfold parseUnsigned at h
+  split at h <;> first | (cases h; done) | exact hc _ h
+
+theorem parseAll_bound (radix max : Nat) : ∀ (parts : List (List Char)) (vs : List Nat),
+    parseAll radix max parts = some vs → ∀ v ∈ vs, v ≤ max := by
+  intro parts
+  induction parts with
+  | nil => intro vs h v hv; simp [parseAll] at h; subst h; cases hv
+  | cons p ps ih =>
+    intro vs h v hv
+    simp only [parseAll] at h
+    cases hp : parseUnsigned radix max p with
+    | none => simp [hp] at h
+    | some x =>
+      simp only [hp, Option.map_eq_some_iff] at h
+      obtain ⟨ws, hws, rfl⟩ := h
+      simp only [List.mem_cons] at hv
+      rcases hv with rfl | hv
+      · exact parseUnsigned_bound radix max p _ hp
+      · exact ih ws hws v hv
+
+/-- what `MacAddress::from_str` accepts is six bytes -/
+theorem parseMac_ok (t : List Char) (a : List Nat) (h : Proto.parseMac t = some a) : a.length = 6 ∧ bytesOk a := by
+  simp only [Proto.parseMac] at h
+  split at h
+  · cases h
+  · rename_i hl
+    refine ⟨by rw [C18.parseAll_length 16 255 _ a h]; omega, ?_⟩
+    intro x hx; have := parseAll_bound 16 255 _ a h x hx; omega
+
+theorem parseV4_ok (t : List Char) (a : List Nat) (h : Proto.parseV4 t = some a) : a.length = 4 ∧ bytesOk a := by
+  simp only [Proto.parseV4] at h
+  split at h
+  · cases h
+  · rename_i hl
+    refine ⟨by rw [C18.parseAll_length 10 255 _ a h]; omega, ?_⟩
+    intro x hx; have := parseAll_bound 10 255 _ a h x hx; omega
+
+theorem v6GroupsOf_bound (t : List Char) (a : List Nat) (h : v6GroupsOf t = some a) : groupsOk a := by
+  simp only [v6GroupsOf] at h
+  split at h
+  · cases h; intro g hg; cases hg
+  · intro g hg; have := parseAll_bound 16 65535 _ a h g hg; omega
+
+/-- what `Ipv6Address::from_str` accepts is eight 16-bit groups -/
+theorem parseV6_ok (t : List Char) (a : List Nat) (h : Proto.parseV6 t = some a) : a.length = 8 ∧ groupsOk a := by
+  simp only [Proto.parseV6] at h
+  split at h
+  · rename_i hd tl hf
+    split at h
+    · rename_i front back h1 h2
+      split at h
+      · cases h
+      · rename_i hlen
+        cases h
+        refine ⟨by simp; omega, ?_⟩
+        intro g hg
+        simp only [List.mem_append, List.mem_replicate] at hg
+        rcases hg with (hg | hg) | hg
+        · exact v6GroupsOf_bound _ _ h1 g hg
+        · omega
+        · exact v6GroupsOf_bound _ _ h2 g hg
+    · cases h
+  · split at h
+    · rename_i front h1
+      split at h
+      · cases h
+      · rename_i hlen
+        cases h
+        exact ⟨by omega, v6GroupsOf_bound _ _ h1⟩
+    · cases h
+
+theorem eth_reparse_wf (h : EthHdr) (hwf : EthWf h) : EthHdr.parse (reader h.toBytes) = h := by
+  obtain ⟨dst, src, et⟩ := h
+  obtain ⟨l1, l2, -, -, w1⟩ := hwf
+  obtain ⟨d0, d1, d2, d3, d4, d5, rfl⟩ := list_len6 dst l1
+  obtain ⟨s0, s1, s2, s3, s4, s5, rfl⟩ := list_len6 src l2
+  exact eth_reparse _ _ _ _ _ _ _ _ _ _ _ _ _ w1
+
+theorem ipv4_reparse_wf (h : Ipv4Hdr) (hwf : Ipv4Wf h) (hopt : h.options.length = max (h.ihl * 4) 20 - 20) :
+    Ipv4Hdr.parse (reader h.toBytes) = h := by
+  obtain ⟨version, ihl, dscp, ecn, totlen, ident, flags, fragoff, ttl, proto, checksum, src, dst, opts⟩ := h
+  obtain ⟨w1, w2, w3, w4, w5, w6, w7, w8, w9, w10, w11, l1, l2, b1, b2, b3⟩ := hwf
+  obtain ⟨s0, s1, s2, s3, rfl⟩ := list_len4 src l1
+  obtain ⟨d0, d1, d2, d3, rfl⟩ := list_len4 dst l2
+  exact ipv4_reparse _ _ _ _ _ _ _ _ _ _ _ _ _ _ _ _ _ _ _ _ w1 w2 w3 w4 w5 w6 w7 w8 w11 hopt
+
+theorem ipv6_reparse_wf (h : Ipv6Hdr) (hwf : Ipv6Wf h) : Ipv6Hdr.parse (reader h.toBytes) = h := by
+  obtain ⟨version, tc, flow, plen, nh, hop, src, dst⟩ := h
+  obtain ⟨w1, w2, w3, w4, w5, w6, l1, l2, g1, g2⟩ := hwf
+  obtain ⟨s0, s1, s2, s3, s4, s5, s6, s7, rfl⟩ := list_len8 src l1
+  obtain ⟨d0, d1, d2, d3, d4, d5, d6, d7, rfl⟩ := list_len8 dst l2
+  refine ipv6_reparse _ _ _ _ _ _ _ _ _ _ _ _ _ _ _ _ _ _ _ _ _ _ w1 w2 w3 w4 ?_
+  intro g hg
+  simp only [List.mem_cons, List.mem_nil_iff, or_false] at hg
+  simp only [groupsOk, List.mem_cons, List.mem_nil_iff, or_false, forall_eq_or_imp, forall_eq] at g1 g2
+  omega
+
+def isAddr (p : PP) : Prop := p = .dst ∨ p = .src
+
+/-- **Ethernet: an address assigned from text** — whatever text `MacAddress::from_str` accepts: the assignment is
+accepted, the header stays well-formed, serialising and re-parsing gives it back, and the property then reads as the
+text of the parsed address; the other properties read as before -/
+theorem eth_assign_addr (h : EthHdr) (hwf : EthWf h) (p : PP) (hp : isAddr p) (t : List Char) (a : List Nat)
+    (ht : Proto.parseMac t = some a) :
+    ∃ h', h.set p (.str t) = some h' ∧ EthWf h' ∧ EthHdr.parse (reader h'.toBytes) = h' ∧
+      (EthHdr.parse (reader h'.toBytes)).get p = some (.text (showMac a)) ∧
+      ∀ q, q ≠ p → (EthHdr.parse (reader h'.toBytes)).get q = h.get q := by
+  obtain ⟨la, ba⟩ := parseMac_ok t a ht
+  obtain ⟨l1, l2, b1, b2, w1⟩ := hwf
+  rcases hp with rfl | rfl
+  · have hwf' : EthWf { h with dst := a } := ⟨la, l2, ba, b2, w1⟩
+    have hs : h.set .dst (.str t) = some { h with dst := a } := by simp [EthHdr.set, EthHdr.setMac, ht]
+    have hre := eth_reparse_wf _ hwf'
+    refine ⟨_, hs, hwf', hre, by rw [hre]; rfl, fun q hq => ?_⟩
+    rw [hre]; exact eth_set_frame h _ .dst q _ hs hq
+  · have hwf' : EthWf { h with src := a } := ⟨l1, la, b1, ba, w1⟩
+    have hs : h.set .src (.str t) = some { h with src := a } := by simp [EthHdr.set, EthHdr.setMac, ht]
+    have hre := eth_reparse_wf _ hwf'
+    refine ⟨_, hs, hwf', hre, by rw [hre]; rfl, fun q hq => ?_⟩
+    rw [hre]; exact eth_set_frame h _ .src q _ hs hq
+
+/-- **IPv4 address from text** (the header's option bytes are as many as IHL says) -/
+theorem ipv4_assign_addr (h : Ipv4Hdr) (hwf : Ipv4Wf h) (hopt : h.options.length = max (h.ihl * 4) 20 - 20)
+    (p : PP) (hp : isAddr p) (t : List Char) (a : List Nat) (ht : Proto.parseV4 t = some a) :
+    ∃ h', h.set p (.str t) = some h' ∧ Ipv4Wf h' ∧ Ipv4Hdr.parse (reader h'.toBytes) = h' ∧
+      (Ipv4Hdr.parse (reader h'.toBytes)).get p = some (.text (showV4 a)) ∧
+      ∀ q, q ≠ p → (Ipv4Hdr.parse (reader h'.toBytes)).get q = h.get q := by
+  obtain ⟨la, ba⟩ := parseV4_ok t a ht
+  obtain ⟨w1, w2, w3, w4, w5, w6, w7, w8, w9, w10, w11, l1, l2, b1, b2, b3⟩ := hwf
+  rcases hp with rfl | rfl
+  · have hwf' : Ipv4Wf { h with dst := a } := ⟨w1, w2, w3, w4, w5, w6, w7, w8, w9, w10, w11, l1, la, b1, ba, b3⟩
+    have hs : h.set .dst (.str t) = some { h with dst := a } := by simp [Ipv4Hdr.set, Ipv4Hdr.setAddr, ht]
+    have hre := ipv4_reparse_wf _ hwf' hopt
+    refine ⟨_, hs, hwf', hre, by rw [hre]; rfl, fun q hq => ?_⟩
+    rw [hre]; exact ipv4_set_frame h _ .dst q _ hs hq
+  · have hwf' : Ipv4Wf { h with src := a } := ⟨w1, w2, w3, w4, w5, w6, w7, w8, w9, w10, w11, la, l2, ba, b2, b3⟩
+    have hs : h.set .src (.str t) = some { h with src := a } := by simp [Ipv4Hdr.set, Ipv4Hdr.setAddr, ht]
+    have hre := ipv4_reparse_wf _ hwf' hopt
+    refine ⟨_, hs, hwf', hre, by rw [hre]; rfl, fun q hq => ?_⟩
+    rw [hre]; exact ipv4_set_frame h _ .src q _ hs hq
+
+/-- **IPv6 address from text**: form 1 or form 2, whatever `Ipv6Address::from_str` accepts -/
+theorem ipv6_assign_addr (h : Ipv6Hdr) (hwf : Ipv6Wf h) (p : PP) (hp : isAddr p) (t : List Char) (a : List Nat)
+    (ht : Proto.parseV6 t = some a) :
+    ∃ h', h.set p (.str t) = some h' ∧ Ipv6Wf h' ∧ Ipv6Hdr.parse (reader h'.toBytes) = h' ∧
+      (Ipv6Hdr.parse (reader h'.toBytes)).get p = some (.text (showV6 a)) ∧
+      ∀ q, q ≠ p → (Ipv6Hdr.parse (reader h'.toBytes)).get q = h.get q := by
+  obtain ⟨la, ga⟩ := parseV6_ok t a ht
+  obtain ⟨w1, w2, w3, w4, w5, w6, l1, l2, g1, g2⟩ := hwf
+  rcases hp with rfl | rfl
+  · have hwf' : Ipv6Wf { h with dst := a } := ⟨w1, w2, w3, w4, w5, w6, l1, la, g1, ga⟩
+    have hs : h.set .dst (.str t) = some { h with dst := a } := by simp [Ipv6Hdr.set, Ipv6Hdr.setAddr, ht]
+    have hre := ipv6_reparse_wf _ hwf'
+    refine ⟨_, hs, hwf', hre, by rw [hre]; rfl, fun q hq => ?_⟩
+    rw [hre]; exact ipv6_set_frame h _ .dst q _ hs hq
+  · have hwf' : Ipv6Wf { h with src := a } := ⟨w1, w2, w3, w4, w5, w6, la, l2, ga, g2⟩
+    have hs : h.set .src (.str t) = some { h with src := a } := by simp [Ipv6Hdr.set, Ipv6Hdr.setAddr, ht]
+    have hre := ipv6_reparse_wf _ hwf'
+    refine ⟨_, hs, hwf', hre, by rw [hre]; rfl, fun q hq => ?_⟩
+    rw [hre]; exact ipv6_set_frame h _ .src q _ hs hq
+
+
+/-! ### "assign the text of address `a`, write, re-parse, read the property: the text of `a`" -/
+
+theorem mac_assign_text_roundtrip (h : EthHdr) (hwf : EthWf h) (p : PP) (hp : isAddr p) (a : List Nat)
+    (hlen : a.length = 6) (hb : bytesOk a) :
+    ∃ h', h.set p (.str (showMac a)) = some h' ∧
+      (EthHdr.parse (reader h'.toBytes)).get p = some (.text (showMac a)) ∧
+      ∀ q, q ≠ p → (EthHdr.parse (reader h'.toBytes)).get q = h.get q := by
+  obtain ⟨h', h1, -, -, h4, h5⟩ := eth_assign_addr h hwf p hp _ a (C18.mac_roundtrip a hlen hb)
+  exact ⟨h', h1, h4, h5⟩
+
+theorem v4_assign_text_roundtrip (h : Ipv4Hdr) (hwf : Ipv4Wf h) (hopt : h.options.length = max (h.ihl * 4) 20 - 20)
+    (p : PP) (hp : isAddr p) (a : List Nat) (hlen : a.length = 4) (hb : bytesOk a) :
+    ∃ h', h.set p (.str (showV4 a)) = some h' ∧
+      (Ipv4Hdr.parse (reader h'.toBytes)).get p = some (.text (showV4 a)) ∧
+      ∀ q, q ≠ p → (Ipv4Hdr.parse (reader h'.toBytes)).get q = h.get q := by
+  obtain ⟨h', h1, -, -, h4, h5⟩ := ipv4_assign_addr h hwf hopt p hp _ a (C18.v4_roundtrip a hlen hb)
+  exact ⟨h', h1, h4, h5⟩
+
+theorem v6_assign_text_roundtrip (h : Ipv6Hdr) (hwf : Ipv6Wf h) (p : PP) (hp : isAddr p) (a : List Nat)
+    (hlen : a.length = 8) (hg : groupsOk a) :
+    ∃ h', h.set p (.str (showV6 a)) = some h' ∧
+      (Ipv6Hdr.parse (reader h'.toBytes)).get p = some (.text (showV6 a)) ∧
+      ∀ q, q ≠ p → (Ipv6Hdr.parse (reader h'.toBytes)).get q = h.get q := by
+  obtain ⟨h', h1, -, -, h4, h5⟩ := ipv6_assign_addr h hwf p hp _ a (C18.v6_roundtrip a hlen hg)
+  exact ⟨h', h1, h4, h5⟩
+
+/-! ### against the reference: a text the reference parser calls standard -/
+
+/-- **a standard MAC text is accepted, and after write + re-parse the property reads as the reference's rendering of
+the reference's value** -/
+theorem mac_assign_reference (h : EthHdr) (hwf : EthWf h) (p : PP) (hp : isAddr p) (t : List Char) (gs : List Nat)
+    (hstd : Rfc.parseMac t = .std gs) :
+    ∃ h', h.set p (.str t) = some h' ∧ (EthHdr.parse (reader h'.toBytes)).get p = some (.text (Rfc.showMacU gs)) := by
+  have ht := C18.mac_reference_standard t gs hstd
+  obtain ⟨h', h1, -, -, h4, -⟩ := eth_assign_addr h hwf p hp t gs ht
+  rw [C16.mac_text_is_reference gs (parseMac_ok t gs ht).2] at h4
+  exact ⟨h', h1, h4⟩
+
+theorem v4_assign_reference (h : Ipv4Hdr) (hwf : Ipv4Wf h) (hopt : h.options.length = max (h.ihl * 4) 20 - 20)
+    (p : PP) (hp : isAddr p) (t : List Char) (gs : List Nat) (hstd : Rfc.parseV4 t = .std gs) :
+    ∃ h', h.set p (.str t) = some h' ∧ (Ipv4Hdr.parse (reader h'.toBytes)).get p = some (.text (Rfc.showV4 gs)) := by
+  have ht := C18.v4_reference_standard t gs hstd
+  obtain ⟨h', h1, -, -, h4, -⟩ := ipv4_assign_addr h hwf hopt p hp t gs ht
+  rw [C16.v4_text_is_reference gs (parseV4_ok t gs ht).2] at h4
+  exact ⟨h', h1, h4⟩
+
+/-- **a standard IPv6 text — with or without `::`, wherever it is — is accepted, and after write + re-parse the
+property reads as one of the reference's renderings of the reference's value** -/
+theorem v6_assign_reference (h : Ipv6Hdr) (hwf : Ipv6Wf h) (p : PP) (hp : isAddr p) (t : List Char) (gs : List Nat)
+    (hstd : Rfc.parseV6 t = .std gs) :
+    ∃ h' txt, h.set p (.str t) = some h' ∧ (Ipv6Hdr.parse (reader h'.toBytes)).get p = some (.text txt) ∧
+      txt = Rfc.showV6Full Rfc.digitL 0 gs ∧ txt ∈ Rfc.showV6All gs := by
+  have ht := C18.v6_reference_standard t gs hstd
+  obtain ⟨h', h1, -, -, h4, -⟩ := ipv6_assign_addr h hwf p hp t gs ht
+  have hg := (parseV6_ok t gs ht).2
+  exact ⟨h', _, h1, h4, C16.v6_text_is_reference gs hg, C16.v6_text_in_reference_renderings gs hg⟩
+
+set_option maxRecDepth 100000 in
+/-- `ipv6.dst = "fe80::A:0b"` on a well-formed header: after write + re-parse it reads `fe80:0:0:0:0:0:a:b` -/
+example :
+    let h : Ipv6Hdr := ⟨6, 0, 0, 8, 17, 64, [0, 0, 0, 0, 0, 0, 0, 1], [0, 0, 0, 0, 0, 0, 0, 2]⟩
+    (h.set .dst (.str "fe80::A:0b".toList)).bind (fun h' => (Ipv6Hdr.parse (reader h'.toBytes)).get .dst) =
+      some (.text "fe80:0:0:0:0:0:a:b".toList) ∧
+    Rfc.parseV6 "fe80::A:0b".toList = .std [0xfe80, 0, 0, 0, 0, 0, 10, 11] ∧
+    Rfc.showV6Full Rfc.digitL 0 [0xfe80, 0, 0, 0, 0, 0, 10, 11] = "fe80:0:0:0:0:0:a:b".toList := by decide
+
+example (h : Ipv6Hdr) (hwf : Ipv6Wf h) :
+    ∃ h' txt, h.set .dst (.str "fe80::A:0b".toList) = some h' ∧
+      (Ipv6Hdr.parse (reader h'.toBytes)).get .dst = some (.text txt) ∧
+      txt = Rfc.showV6Full Rfc.digitL 0 [0xfe80, 0, 0, 0, 0, 0, 10, 11] ∧ txt ∈ Rfc.showV6All [0xfe80, 0, 0, 0, 0, 0, 10, 11] :=
+  v6_assign_reference h hwf .dst (Or.inl rfl) _ _ (by decide)
+
+example (h : EthHdr) (hwf : EthWf h) :
+    ∃ h', h.set .src (.str "00:1b:2C:ff:0a:99".toList) = some h' ∧
+      (EthHdr.parse (reader h'.toBytes)).get .src = some (.text (Rfc.showMacU [0, 0x1b, 0x2c, 0xff, 0x0a, 0x99])) :=
+  mac_assign_reference h hwf .src (Or.inr rfl) _ _ (by decide)
+
+example : Rfc.showMacU [0, 0x1b, 0x2c, 0xff, 0x0a, 0x99] = "00:1B:2C:FF:0A:99".toList := by decide
+
+/-! ### every parsed header is well-formed, and accepted assignments keep it so -/
+
+theorem parse_wf (L : Rfc.Layer) (b : Nat → Nat) (hb : ∀ i, b i < 256) : HdrWf (C16.parseAs L b) := by
+  have h0 := hb 0; have h1 := hb 1; have h2 := hb 2; have h3 := hb 3; have h4 := hb 4; have h5 := hb 5
+  have h6 := hb 6; have h7 := hb 7; have h8 := hb 8; have h9 := hb 9; have h10 := hb 10; have h11 := hb 11
+  have h12 := hb 12; have h13 := hb 13; have h14 := hb 14; have h15 := hb 15; have h16 := hb 16; have h17 := hb 17
+  have h18 := hb 18; have h19 := hb 19
+  have hgr : ∀ c : Nat → Nat, (∀ i, c i < 256) → groupsOk (v6Groups c) := by
+    intro c hc g hg
+    simp only [v6Groups, List.mem_map, List.mem_range] at hg
+    obtain ⟨i, _, rfl⟩ := hg
+    have := hc (2 * i); have := hc (2 * i + 1); omega
+  cases L
+  · simp [C16.parseAs, HdrWf, PcapHdr.parse, u32le]; omega
+  · simp [C16.parseAs, HdrWf, EthWf, EthHdr.parse, u16be, bytesOk, hb]; omega
+  · simp [C16.parseAs, HdrWf, VlanWf, VlanHdr.parse, u16be]; omega
+  · simp only [C16.parseAs, HdrWf, Ipv4Wf, Ipv4Hdr.parse, u16be, bytesOk]
+    refine ⟨by omega, by omega, by omega, by omega, by omega, by omega, by omega, by omega, by omega, by omega, by omega,
+      rfl, rfl, by simp [hb], by simp [hb], ?_⟩
+    intro x hx; simp only [List.mem_map] at hx; obtain ⟨i, _, rfl⟩ := hx; exact hb _
+  · simp only [C16.parseAs, HdrWf, Ipv6Wf, Ipv6Hdr.parse, u16be]
+    refine ⟨by omega, by omega, by omega, by omega, by omega, by omega, by simp [v6Groups], by simp [v6Groups],
+      hgr (fun i => b (8 + i)) (fun i => hb (8 + i)), hgr (fun i => b (24 + i)) (fun i => hb (24 + i))⟩
+  · simp only [C16.parseAs, HdrWf, TcpWf, TcpHdr.parse, u16be, u32be, bytesOk]
+    refine ⟨by omega, by omega, by omega, by omega, by omega, by omega, by omega, by omega, by omega, ?_⟩
+    intro x hx; simp only [List.mem_map] at hx; obtain ⟨i, _, rfl⟩ := hx; exact hb _
+  · trivial
+
+
+/-- **in the frame**: a header that sits behind `pre` and before `post` — the reference patches the frame's bits at
+`8·|pre| + o`; that is the frame with the header's bytes replaced by the new serialisation -/
+theorem setBits_frame (pre A B post : List Nat) (o w v : Nat) (hpre : bytesOk pre) (hA : bytesOk A) (hpost : bytesOk post)
+    (hlen : A.length = B.length) (hrange : o + w ≤ 8 * A.length) (h : Rfc.setBits A o w v = B) :
+    Rfc.setBits (pre ++ A ++ post) (8 * pre.length + o) w v = pre ++ B ++ post := by
+  refine setBits_splice _ _ _ _ _ pre.length A.length ?_ ?_ (by omega) (by omega) ?_ ?_ ?_
+  · intro x hx
+    simp only [List.mem_append] at hx
+    rcases hx with (hx | hx) | hx
+    · exact hpre x hx
+    · exact hA x hx
+    · exact hpost x hx
+  · simp [hlen]
+  · simp
+  · rw [List.append_assoc, List.append_assoc, List.drop_append, List.drop_append,
+      List.drop_eq_nil_of_le (by omega), List.drop_eq_nil_of_le (by simp), hlen]
+    simp
+  · have e : 8 * pre.length + o - 8 * pre.length = o := by omega
+    rw [e]
+    simp [List.append_assoc, hlen, h]
+
+
+/-- **accepted assignments keep a header well-formed** (so every header a script can reach is: `parse_wf`) -/
+theorem set_wf (hd hd' : Hdr) (hwf : HdrWf hd) (p : PP) (v : SetVal) (hs : hd.set p v = some hd') : HdrWf hd' := by
+  cases hd <;> simp only [Hdr.set, Option.map_eq_some_iff] at hs <;> obtain ⟨x, hx, rfl⟩ := hs <;>
+    simp only [HdrWf] at hwf ⊢
+  · -- pcap
+    obtain ⟨w1, w2, w3, w4⟩ := hwf
+    cases p <;> simp only [PcapHdr.set, Option.map_eq_some_iff] at hx <;>
+      first
+      | (cases hx; done)
+      | (obtain ⟨n, hn, rfl⟩ := hx; have := casted_eq _ _ _ hn; exact ⟨by first | omega | (simp only []; omega), by first | omega | (simp only []; omega), by first | omega | (simp only []; omega), by first | omega | (simp only []; omega)⟩)
+  · -- eth
+    obtain ⟨l1, l2, b1, b2, w1⟩ := hwf
+    cases p <;> simp only [EthHdr.set, Option.map_eq_some_iff] at hx <;>
+      first
+      | (cases hx; done)
+      | (obtain ⟨n, hn, rfl⟩ := hx; have := checked_le _ _ _ hn; exact ⟨l1, l2, b1, b2, by first | omega | (simp only []; omega)⟩)
+      | (obtain ⟨a, ha, rfl⟩ := hx
+         cases v with
+         | str s =>
+           obtain ⟨la, ba⟩ := parseMac_ok _ _ ha
+           first | exact ⟨la, l2, ba, b2, w1⟩ | exact ⟨l1, la, b1, ba, w1⟩
+         | _ => cases ha)
+  · -- vlan
+    obtain ⟨w1, w2, w3⟩ := hwf
+    cases p <;> simp only [VlanHdr.set, Option.map_eq_some_iff] at hx <;>
+      first
+      | (cases hx; done)
+      | (obtain ⟨n, hn, rfl⟩ := hx; have := checked_le _ _ _ hn; exact ⟨by first | omega | (simp only []; omega), by first | omega | (simp only []; omega), by first | omega | (simp only []; omega)⟩)
+      | (cases v <;> simp at hx; subst hx; exact ⟨w1, w2, w3⟩)
+  · -- ipv4
+    obtain ⟨w1, w2, w3, w4, w5, w6, w7, w8, w9, w10, w11, l1, l2, b1, b2, b3⟩ := hwf
+    cases p <;> simp only [Ipv4Hdr.set, Option.map_eq_some_iff] at hx <;>
+      first
+      | (cases hx; done)
+      | (obtain ⟨n, hn, rfl⟩ := hx; have := checked_le _ _ _ hn
+         exact ⟨by first | omega | (simp only []; omega), by first | omega | (simp only []; omega), by first | omega | (simp only []; omega), by first | omega | (simp only []; omega), by first | omega | (simp only []; omega), by first | omega | (simp only []; omega), by first | omega | (simp only []; omega), by first | omega | (simp only []; omega), by first | omega | (simp only []; omega), by first | omega | (simp only []; omega), by first | omega | (simp only []; omega),
+           l1, l2, b1, b2, b3⟩)
+      | (obtain ⟨a, ha, rfl⟩ := hx
+         cases v with
+         | str s =>
+           obtain ⟨la, ba⟩ := parseV4_ok _ _ ha
+           first
+           | exact ⟨w1, w2, w3, w4, w5, w6, w7, w8, w9, w10, w11, la, l2, ba, b2, b3⟩
+           | exact ⟨w1, w2, w3, w4, w5, w6, w7, w8, w9, w10, w11, l1, la, b1, ba, b3⟩
+         | _ => cases ha)
+  · -- ipv6
+    obtain ⟨w1, w2, w3, w4, w5, w6, l1, l2, g1, g2⟩ := hwf
+    cases p <;> simp only [Ipv6Hdr.set, Option.map_eq_some_iff] at hx <;>
+      first
+      | (cases hx; done)
+      | (obtain ⟨n, hn, rfl⟩ := hx; have := casted_eq _ _ _ hn
+         exact ⟨by first | omega | (simp only []; omega), by first | omega | (simp only []; omega), by first | omega | (simp only []; omega), by first | omega | (simp only []; omega), by first | omega | (simp only []; omega), by first | omega | (simp only []; omega), l1, l2, g1, g2⟩)
+      | (obtain ⟨a, ha, rfl⟩ := hx
+         cases v with
+         | str s =>
+           obtain ⟨la, ga⟩ := parseV6_ok _ _ ha
+           first
+           | exact ⟨w1, w2, w3, w4, w5, w6, la, l2, ga, g2⟩
+           | exact ⟨w1, w2, w3, w4, w5, w6, l1, la, g1, ga⟩
+         | _ => cases ha)
+  · -- tcp
+    obtain ⟨w1, w2, w3, w4, w5, w6, w7, w8, w9, b3⟩ := hwf
+    cases p <;> simp only [TcpHdr.set, Option.map_eq_some_iff] at hx <;>
+      first
+      | (cases hx; done)
+      | (obtain ⟨n, hn, rfl⟩ := hx; have := casted_eq _ _ _ hn
+         exact ⟨by first | omega | (simp only []; omega), by first | omega | (simp only []; omega), by first | omega | (simp only []; omega),
+           by first | omega | (simp only []; omega), by first | omega | (simp only []; omega), by first | omega | (simp only []; omega),
+           by first | omega | (simp only []; omega), by first | omega | (simp only []; omega), by first | omega | (simp only []; omega), b3⟩)
+
+
+/-- a parsed TCP header is well-formed, an assignment keeps it so, and the bytes change inside the field only -/
+example (b : Nat → Nat) (hb : ∀ i, b i < 256) (hd' : Hdr) (hs : (C16.parseAs .tcp b).set .winsize (.int 1000) = some hd') :
+    HdrWf hd' ∧ ∃ n, hd'.get .winsize = some (.num n) ∧ n < 2 ^ 16 ∧
+      hd'.toBytes = Rfc.setBits (C16.parseAs .tcp b).toBytes 112 16 n :=
+  ⟨set_wf _ _ (parse_wf .tcp b hb) _ _ hs,
+   set_bytes_local _ _ (parse_wf .tcp b hb) .winsize 112 16 _ (by simp [C16.parseAs, hdrLayer]) rfl rfl hs⟩
+
+/-- a header between 14 bytes of Ethernet and two bytes of payload: patching the frame is re-serialising the header -/
+example : Rfc.setBits ([1,2,3,4,5,6,7,8,9,10,11,12,8,0] ++ (UdpHdr.toBytes ⟨53, 53, 10, 0⟩) ++ [0xde, 0xad]) (8 * 14 + 16) 16 4660 =
+    [1,2,3,4,5,6,7,8,9,10,11,12,8,0] ++ (UdpHdr.toBytes ⟨53, 4660, 10, 0⟩) ++ [0xde, 0xad] := by decide
 
 end P2sh.Props.C17
